@@ -16,6 +16,7 @@ import (
 	"github.com/inbucket/inbucket/v3/pkg/message"
 	"github.com/inbucket/inbucket/v3/pkg/storage"
 	"github.com/inbucket/inbucket/v3/pkg/stringutil"
+	"github.com/inbucket/inbucket/v3/pkg/verifhook"
 	"github.com/rs/zerolog/log"
 )
 
@@ -104,6 +105,7 @@ func (fs *Store) AddMessage(m storage.Message) (id string, err error) {
 	}
 
 	// Write the message content.
+	verifhook.Point("file.fs", "add.create-raw", fm.rawPath())
 	file, err := os.Create(fm.rawPath())
 	if err != nil {
 		return "", err
@@ -128,6 +130,8 @@ func (fs *Store) AddMessage(m storage.Message) (id string, err error) {
 		_ = os.Remove(fm.rawPath())
 		return "", err
 	}
+
+	verifhook.Point("file.fs", "add.raw-closed", fm.rawPath())
 
 	// Update the index.
 	fm.Fdate = m.Date()
@@ -224,6 +228,7 @@ func (fs *Store) VisitMailboxes(f func([]storage.Message) (cont bool)) error {
 
 	// Loop over level 1 directories.
 	for _, name1 := range names1 {
+		verifhook.Point("file.visit.level", "1", name1)
 		names2, err := readDirNames(fs.mailPath, name1)
 		if os.IsNotExist(err) {
 			// Removed concurrently, its last mailbox was emptied.
@@ -235,6 +240,7 @@ func (fs *Store) VisitMailboxes(f func([]storage.Message) (cont bool)) error {
 
 		// Loop over level 2 directories.
 		for _, name2 := range names2 {
+			verifhook.Point("file.visit.level", "2", name2)
 			names3, err := readDirNames(fs.mailPath, name1, name2)
 			if os.IsNotExist(err) {
 				// Removed concurrently, its last mailbox was emptied.
@@ -246,6 +252,7 @@ func (fs *Store) VisitMailboxes(f func([]storage.Message) (cont bool)) error {
 
 			// Loop over mailboxes.
 			for _, name3 := range names3 {
+				verifhook.Point("file.visit.level", "3", name3)
 				mb := fs.mboxFromHash(name3)
 				mb.RLock()
 				msgs, err := mb.getMessages()
